@@ -264,6 +264,21 @@ MAIN:
 			}
 			return
 		case syncup := <-d.synCh:
+			if syncup.Start || (syncup.End && pruneID != "") {
+				// The notifications received so far belong to the previous phase, wait for their
+				// writers to finish. Otherwise the pruning would overtake writes that are still in
+				// flight, or late writes would be tagged as belonging to the next sync cycle.
+				err = sem.Acquire(ctx, d.config.Sync.WriteWorkers)
+				if err != nil {
+					if errors.Is(err, context.Canceled) {
+						log.Infof("datastore %s sync stopped", d.config.Name)
+						return
+					}
+					log.Errorf("failed to acquire semaphore: %v", err)
+					continue
+				}
+				sem.Release(d.config.Sync.WriteWorkers)
+			}
 			if syncup.Start {
 				log.Debugf("%s: sync start", d.Name())
 				for {
